@@ -109,7 +109,10 @@ def run(chk, repo, d, tier, broken):
         broken.append({"kind": "harness-power", "msg": "wasi-endian: no value that a byte reversal would change was observed for " + ", ".join(missing)})
     chk.coverage["wasi_endian"] = {"episodes": len(eps), "commands": len(cmds), "per_function": stats, "differences": n_diff,
                                    "seconds": round(time.time() - t0, 1)}
-    chk.coverage["rule"] = (chk.coverage.get("rule") or "") + (" || " if chk.coverage.get("rule") else "") + RULE
+    chk.coverage["wasi_endian"]["rule"] = RULE
+    chk.coverage["trusted_base"].append("tools/extract/gen_wasi_raw.py lists EVERY raw touch and accessor call of wasi.c (any use of a wasmMemory variable, of `->data` "
+                                        "or of an alias that it cannot classify is an EXTRACT-FAIL); exercised on every run by wasi-endian on the real code. Forced "
+                                        "big-endian models a big-endian host only for cells that host and guest access with the same width")
     # the regenerated tables, for the evidence
     try:
         import gen_wasi_raw
